@@ -29,7 +29,7 @@ from vtlmc import ref_c05 as R
 from vtlmc.refbase import DS, ID, ME
 
 ORDERS = ("equal", "permuted-later", "permuted-first")
-KIND_PRIORITY = ["raw-error", "vtl-error", "duplicate-identifiers", "missing-datapoint", "extra-datapoint", "wrong-value", "missing-column"]
+KIND_PRIORITY = ["raw-error", "vtl-error", "missing-datapoint", "extra-datapoint", "wrong-value", "missing-column", "duplicate-identifiers"]
 
 
 # ---------------------------------------------------------------------------------------------------------
@@ -91,16 +91,6 @@ def programs(op, m):
     return out
 
 
-def nested_programs(outer):
-    """-> [(form, expr, [constituents: (op, expr) that must hold alone])] over DS_1..DS_3"""
-    a, b, c = ("ds", "DS_1"), ("ds", "DS_2"), ("ds", "DS_3")
-    out = []
-    for inner in R.SETOPS:
-        out.append(("nested-left-%s" % inner, (outer, [(inner, [a, b]), c])))
-        out.append(("nested-right-%s" % inner, (outer, [a, (inner, [b, c])])))
-    return out
-
-
 def rename_datasets(expr, prefix):
     if expr[0] == "ds":
         return ("ds", prefix + expr[1][3:])
@@ -114,18 +104,19 @@ def space(tier):
     shapes = [(2, 2, False), (2, 3, False), (2, 4, False), (3, 2, False)]
     if tier == "thorough":
         shapes += [(3, 3, False), (3, 4, False), (3, 2, True), (3, 3, True), (3, 4, True), (4, 2, True)]
+    with_unpacked = set()
     for k, m, two in shapes:
         for op in R.SETOPS:
             if m > 2 and op in ("setdiff", "symdiff"):
                 continue
-            items.append({"kind": "flat", "op": op, "m": m, "k": k, "two": two})
+            it = {"kind": "flat", "op": op, "m": m, "k": k, "two": two}
+            if (op, m, two) not in with_unpacked:          # the unpacked shapes run once per (operator, operand count, structure)
+                with_unpacked.add((op, m, two))
+                it["unpacked"] = True
+            items.append(it)
     for k, two in ([(2, False)] if tier == "quick" else [(2, False), (3, False), (3, True)]):
-        for outer in R.SETOPS:
-            items.append({"kind": "nested", "op": outer, "m": 3, "k": k, "two": two})
-    for op in R.SETOPS:
-        for m in ((2, 3, 4) if op in ("union", "intersect") else (2,)):
-            for two in ((False,) if tier == "quick" else (False, True)):
-                items.append({"kind": "unpacked", "op": op, "m": m, "k": 3, "two": two})
+        for inner in R.SETOPS:
+            items.append({"kind": "nested", "op": inner, "m": 3, "k": k, "two": two})
     return items
 
 
@@ -232,170 +223,229 @@ def compact(d):
     return "%s%r = %r" % (d.name, [c[0] for c in d.comps], [tuple(r[c[0]] for c in d.comps) for r in d.rows])
 
 
+PREFIX = {"equal": "E", "permuted-later": "L", "permuted-first": "F"}
+
+
+def kind_rank(kind):
+    head = kind.split(":")[0]
+    return KIND_PRIORITY.index(head) if head in KIND_PRIORITY else 99
+
+
+def judge_statement(e, got, env, ids, slices, dss):
+    """-> (expected rows, {(class, kind): entry}, {slice id: kind of its first difference});
+    entry = the smallest failing input of the class: dict(sid, expr, text, rank, dss, ids)"""
+    exp = R.evaluate(e, env, ids)
+    sig, bad = {}, {}
+    if isinstance(got, tuple):
+        sig[("any-input", got[1])] = {"sid": None, "expr": e, "text": got[2], "rank": (0, 0), "dss": dss, "ids": ids}
+        return exp, sig, None
+    cols = [c for c in (exp[0].keys() if exp else []) if c not in ids]
+    diffs = refbase.compare(got, exp, ids, cols or None)
+    present = operand_keys(e, env, ids)
+    cid_at = ids.index("C_id") if slices is not None else None
+    for kind, key, detail in diffs:
+        sid = None
+        if slices is not None and isinstance(key[cid_at], int) and not isinstance(key[cid_at], bool) and key[cid_at] in slices:
+            sid = key[cid_at]
+        cls = classify(e[0], len(e[1]), kind, key, present)
+        bad.setdefault(sid, kind)
+        rank = (sum(len(x) for x in slices[sid]), sid) if sid is not None else (10 ** 6, -1)
+        prev = sig.get((cls, kind))
+        if prev is None or rank < prev["rank"]:
+            sig[(cls, kind)] = {"sid": sid, "expr": e, "text": describe(ids, [(kind, key, detail)]), "rank": rank, "dss": dss, "ids": ids}
+    return exp, sig, bad
+
+
+def emit(fkey, entry, rec):
+    e, dss, ids, sid = entry["expr"], entry["dss"], entry["ids"], entry["sid"]
+    where = None
+    if sid is not None:                                    # minimise: the failing C_id slice alone
+        alone = [DS(d.name, d.comps, [r for r in d.rows if r["C_id"] == sid]) for d in dss]
+        rec.count("engine_runs")
+        if still_fails(e, alone, ids):
+            dss = alone
+        else:
+            where = "the packed input (C_id slice %s; the slice alone does not fail)" % sid
+    used = set(R.datasets_of(e))
+    if where is None:
+        where = "; ".join(compact(d) for d in dss if d.name in used) if sum(len(d.rows) for d in dss if d.name in used) <= 24 else "the packed input"
+    rec.violation(fkey, "DS_r <- %s; on %s -> %s" % (R.render(e), where, entry["text"]), replay_data(e, dss, ids, sid is not None))
+
+
+def packed_inputs(item, m):
+    rows, slices = packed_rows(item["k"], m, item["two"])
+    by_order = {}
+    for o in ORDERS:
+        by_order[o] = [DS("%s_%d" % (PREFIX[o], j), comps_for(o, j, item["two"]), shuffled(rows[j], item["seed"] * 10 + j if item["seed"] else 0))
+                       for j in range(1, m + 1)]
+    return slices, by_order
+
+
+def record_cases(item, form, o, e, exp, got, bad, slices, rec):
+    k, m = item["k"], len(next(iter(slices.values())))
+    nonempty = set(r["C_id"] for r in exp)
+    agg = {}
+    for sid, combo in slices.items():
+        outcome = got[1] if isinstance(got, tuple) else bad.get(sid, "ok")
+        collided = any(sum(1 for sub in combo if ki in sub) >= 2 for ki in range(k))
+        ck = ((item["op"], m, form, o, "two-ids" if item["two"] else "one-id", presence_class(combo, k)), outcome, collided or sid in nonempty)
+        agg[ck] = agg.get(ck, 0) + 1
+    if bad and None in bad:
+        rec.case((item["op"], m, form, o, "datapoints-outside-every-slice"), bad[None], nontrivial=True)
+    for (ck, outcome, nt), n in agg.items():
+        rec.case(ck, outcome, nontrivial=nt, n=n,
+                 sample={"script": "DS_r <- %s;" % R.render(e), "operands_holding_each_key": list(ck[-1]), "outcome": outcome} if nt and outcome == "ok" else None)
+
+
 def work(item, rec):
     harness.boot()
-    if item["kind"] == "unpacked":
-        return work_unpacked(item, rec)
-    op, m, k, two, seed = item["op"], item["m"], item["k"], item["two"], item["seed"]
-    rows, slices = packed_rows(k, m, two)
+    if item["kind"] == "flat":
+        work_flat(item, rec)
+    else:
+        work_nested(item, rec)
+
+
+def work_flat(item, rec):
+    op, m, two = item["op"], item["m"], item["two"]
+    slices, by_order = packed_inputs(item, m)
     ids = [c[0] for c in canonical_comps(two) if c[2] == ID]
-    progs = programs(op, m) if item["kind"] == "flat" else nested_programs(op)
-    datasets, stmts, meta = [], [], {}
+    datasets = [d for o in ORDERS for d in by_order[o]]
+    stmts, meta = [], {}
     for o in ORDERS:
-        prefix = {"equal": "E_", "permuted-later": "L_", "permuted-first": "F_"}[o]
-        for j in range(1, m + 1):
-            datasets.append(DS("%s%d" % (prefix, j), comps_for(o, j, two), shuffled(rows[j], seed + j if seed else 0)))
-        for form, expr in progs:
-            t = "R_%s%d" % (prefix, len(stmts))
-            e = rename_datasets(expr, prefix)
-            stmts.append((t, e))
-            meta[t] = (form, o, e)
-        if item["kind"] == "nested":
-            # the constituent two-operand operators alone, on the same structures: a composite is only blamed when
-            # every constituent holds alone
-            for cop in R.SETOPS:
-                for a, b in ((1, 2), (2, 3), (1, 3)):
-                    t = "Q_%s%s_%d%d" % (prefix, cop, a, b)
-                    e = (cop, [("ds", "%s%d" % (prefix, a)), ("ds", "%s%d" % (prefix, b))])
-                    stmts.append((t, e))
-                    meta[t] = ("constituent", o, e)
+        for form, expr in programs(op, m):
+            t = "R_%s_%d" % (PREFIX[o], len(stmts))
+            stmts.append((t, rename_datasets(expr, PREFIX[o] + "_")))
+            meta[t] = (form, o)
     results = run_statements(stmts, datasets, rec)
     env = {d.name: d.rows for d in datasets}
-    cid_at = ids.index("C_id")
-
-    failing = {}                 # (form, order) -> {(class, kind): (slice id or None, text)}
+    failing = {}
     for t, e in stmts:
-        form, o, _ = meta[t]
-        got = results[t]
-        sig = failing.setdefault((form, o) if form != "constituent" else ("constituent:" + e[0], o), {})
-        if isinstance(got, tuple):
-            sig[("any-input", got[1])] = (None, e, "%s -> %s" % (R.render(e), got[2]))
-            bad_slices, exp = None, R.evaluate(e, env, ids)
-        else:
-            exp, diffs = judge(e, env, ids, got)
-            present = operand_keys(e, env, ids)
-            bad_slices = {}
-            for kind, key, detail in diffs:
-                sid = key[cid_at] if isinstance(key[cid_at], int) and key[cid_at] in slices else None
-                cls = classify(e[0], len(e[1]), kind, key, present)
-                bad_slices.setdefault(sid, kind)
-                prev = sig.get((cls, kind))
-                size = sum(len(s) for s in slices[sid]) if sid is not None else 10 ** 6
-                if prev is None or (size, sid if sid is not None else -1) < prev[3]:
-                    sig[(cls, kind)] = (sid, e, "%s: %s" % (R.render(e), describe(ids, [(kind, key, detail)])), (size, sid if sid is not None else -1))
-        if form == "constituent":
-            continue
-        # cases: one per slice
-        nonempty = set(r["C_id"] for r in exp)
-        agg = {}
-        for sid, combo in slices.items():
-            outcome = got[1] if isinstance(got, tuple) else bad_slices.get(sid, "ok")
-            collided = any(sum(1 for sub in combo if ki in sub) >= 2 for ki in range(k))
-            ck = ((op, m, form, o, "two-ids" if two else "one-id", presence_class(combo, k)), outcome, collided or sid in nonempty)
-            agg[ck] = agg.get(ck, 0) + 1
-        if not isinstance(got, tuple) and None in (bad_slices or {}):
-            rec.case((op, m, form, o, "datapoints-outside-every-slice"), bad_slices[None], nontrivial=True)
-        for (ck, outcome, nt), n in agg.items():
-            rec.case(ck, outcome, nontrivial=nt, n=n,
-                     sample={"script": "DS_r <- %s;" % R.render(e), "slice": list(ck[-1]), "outcome": outcome} if nt and outcome == "ok" and ck[-1][0] != "0" * m else None)
-
-    report(item, failing, datasets, ids, rec)
+        form, o = meta[t]
+        exp, sig, bad = judge_statement(e, results[t], env, ids, slices, by_order[o])
+        failing[(form, o)] = sig
+        record_cases(item, form, o, e, exp, results[t], bad, slices, rec)
+    if item.get("unpacked"):
+        failing.update(run_unpacked(item, rec))
+    report_flat(item, failing, rec)
 
 
-def report(item, failing, datasets, ids, rec):
-    """attribute the failing (class, kind) pairs: a finding is reported for the simplest statement that shows it"""
-    op, m = item["op"], item["m"]
-    seen = set()                 # (class, kind) already reported for a simpler statement of this item
-
-    def emit(fkey, entry):
-        sid, e, text = entry[0], entry[1], entry[2]
-        dss, packed = datasets, True
-        if sid is not None:                                # minimise: the failing C_id slice alone
-            alone = [DS(d.name, d.comps, [r for r in d.rows if r["C_id"] == sid]) for d in datasets]
-            rec.count("engine_runs")
-            if still_fails(e, alone, ids):
-                dss, packed = alone, False
-        used = set(R.datasets_of(e))
-        what = "DS_r <- %s; on %s -> %s" % (R.render(e), ("; ".join(compact(d) for d in dss if d.name in used)) if not packed else "the packed input (slice C_id=%s)" % sid, text)
-        rec.violation(fkey, what, replay_data(e, dss, ids, packed))
-
-    forms = []
-    for (form, o) in failing:
-        if not form.startswith("constituent:") and form not in forms:
-            forms.append(form)
+def run_unpacked(item, rec):
+    """every operand wholly empty or full, no C_id: 2^m combinations x component orders, one script"""
+    op, m, two = item["op"], item["m"], item["two"]
+    k = 3
+    keys = universe(k, two)
+    ids = [c[0] for c in canonical_comps(two, packed=False) if c[2] == ID]
+    datasets, stmts, meta = [], [], {}
     for o in ORDERS:
+        for j in range(1, m + 1):
+            comps = comps_for(o, j, two, packed=False)
+            datasets.append(DS("%s_e%d" % (PREFIX[o], j), comps, []))
+            datasets.append(DS("%s_f%d" % (PREFIX[o], j), comps, [datapoint(j, ki, keys[ki], two) for ki in range(k)]))
+        for combo in itertools.product("ef", repeat=m):
+            t = "R_%s_%s" % (PREFIX[o], "".join(combo))
+            stmts.append((t, (op, [("ds", "%s_%s%d" % (PREFIX[o], c, j)) for j, c in enumerate(combo, 1)])))
+            meta[t] = (o, combo)
+    results = run_statements(stmts, datasets, rec)
+    env = {d.name: d.rows for d in datasets}
+    failing = {}
+    for t, e in stmts:
+        o, combo = meta[t]
+        exp, sig, bad = judge_statement(e, results[t], env, ids, None, datasets)
+        shape = "some-operand-empty" if "e" in combo else "all-operands-full"
+        failing.setdefault(("unpacked/" + shape, o), {})
+        for ck, entry in sig.items():
+            failing[("unpacked/" + shape, o)].setdefault(ck, entry)
+        outcome = results[t][1] if isinstance(results[t], tuple) else (bad[None] if bad else "ok")
+        rec.case((op, m, "unpacked", o, "two-ids" if two else "one-id", "operands-" + "".join(combo).upper()), outcome, nontrivial="f" in combo)
+    return failing
+
+
+def report_flat(item, failing, rec):
+    """a finding is reported for the simplest statement that shows it (one root cause = one key): plain form with equal
+    component order first (one key per class of failing key), then the other forms / orders / unpacked shapes, where only
+    what the simpler statements do not show is reported, under one key per variant"""
+    op, mc = item["op"], count_class(item["m"])
+    seen = set()
+    base = failing.get(("plain", "equal"), {})
+    forms = ["plain", "filter-last", "filter-first", "unpacked/some-operand-empty", "unpacked/all-operands-full"]
+    for o in ORDERS:
+        order_specific = [ck for ck in failing.get(("plain", o), {}) if ck not in base] if o != "equal" else []
         for form in forms:
             sig = failing.get((form, o), {})
-            if not sig:
-                continue
-            if form.startswith("nested"):
-                # constituents: the inner and the outer operator alone under the same component-order variant
-                inner = form.split("-")[-1]
-                if failing.get(("constituent:" + inner, o)) or failing.get(("constituent:" + op, o)):
-                    rec.count("composite_failures_explained_by_a_constituent", len(sig))
-                    continue
             new = {ck: v for ck, v in sig.items() if ck not in seen}
             if not new:
                 continue
             if form == "plain" and o == "equal":
                 for (cls, kind), entry in sorted(new.items()):
-                    emit("C05:%s:%s:%s:%s" % (op, count_class(m), cls, kind), entry)
+                    emit("C05:%s:%s:%s:%s" % (op, mc, cls, kind), entry, rec)
+            elif form != "plain" and order_specific:
+                rec.count("variant_failures_explained_by_the_plain_form", len(new))
             else:
-                # one key per variant: the failure is specific to the form and/or the component order
-                if form != "plain" and o != "equal" and any(ck not in failing.get(("plain", "equal"), {}) for ck in failing.get(("plain", o), {})):
-                    rec.count("variant_failures_explained_by_the_plain_form", len(new))
-                    continue
                 parts = ([form] if form != "plain" else []) + (["permuted-component-order"] if o != "equal" else [])
-                kinds = sorted(new, key=lambda ck: (KIND_PRIORITY.index(ck[1].split(":")[0]) if ck[1].split(":")[0] in KIND_PRIORITY else 99, ck))
-                fkey = "C05:%s:%s:%s:%s" % (op, count_class(m), "+".join(parts), kinds[0][1])
+                first = sorted(new, key=lambda ck: (kind_rank(ck[1]), ck))[0]
+                fkey = "C05:%s:%s:%s:%s" % (op, mc, "+".join(parts), first[1])
                 if fkey not in seen:
-                    emit(fkey, new[kinds[0]])
+                    emit(fkey, new[first], rec)
                     seen.add(fkey)
             seen.update(new)
 
 
-def work_unpacked(item, rec):
-    """every operand wholly empty or full, no C_id: 2^m combinations x component orders, one script"""
-    op, m, k, two = item["op"], item["m"], item["k"], item["two"]
-    keys = universe(k, two)
-    ids = [c[0] for c in canonical_comps(two, packed=False) if c[2] == ID]
-    datasets, stmts, meta = [], [], {}
+def work_nested(item, rec):
+    """item['op'] is the INNER operator: outer(inner(DS_1, DS_2), DS_3) and outer(DS_1, inner(DS_2, DS_3)) for every outer"""
+    inner, two = item["op"], item["two"]
+    slices, by_order = packed_inputs(item, 3)
+    ids = [c[0] for c in canonical_comps(two) if c[2] == ID]
+    datasets = [d for o in ORDERS for d in by_order[o]]
+    a, b, c = ("ds", "DS_1"), ("ds", "DS_2"), ("ds", "DS_3")
+    stmts, meta = [], {}
     for o in ORDERS:
-        prefix = {"equal": "E", "permuted-later": "L", "permuted-first": "F"}[o]
-        for j in range(1, m + 1):
-            comps = comps_for(o, j, two, packed=False)
-            datasets.append(DS("%s_e%d" % (prefix, j), comps, []))
-            datasets.append(DS("%s_f%d" % (prefix, j), comps, [datapoint(j, ki, keys[ki], two) for ki in range(k)]))
-        for combo in itertools.product("ef", repeat=m):
-            t = "R_%s_%s" % (prefix, "".join(combo))
-            e = (op, [("ds", "%s_%s%d" % (prefix, c, j)) for j, c in enumerate(combo, 1)])
-            stmts.append((t, e))
-            meta[t] = (o, combo)
+        for outer in R.SETOPS:
+            for side, expr in (("left", (outer, [(inner, [a, b]), c])), ("right", (outer, [a, (inner, [b, c])]))):
+                t = "R_%s_%d" % (PREFIX[o], len(stmts))
+                stmts.append((t, rename_datasets(expr, PREFIX[o] + "_")))
+                meta[t] = (("nested", outer, side), o)
+        # the two-operand operators alone on the same structures: a composite is blamed only if its constituents hold alone
+        for cop in R.SETOPS:
+            for x, y in ((1, 2), (2, 3), (1, 3)):
+                t = "Q_%s_%s_%d%d" % (PREFIX[o], cop, x, y)
+                stmts.append((t, (cop, [("ds", "%s_%d" % (PREFIX[o], x)), ("ds", "%s_%d" % (PREFIX[o], y))])))
+                meta[t] = (("constituent", cop), o)
     results = run_statements(stmts, datasets, rec)
     env = {d.name: d.rows for d in datasets}
+    failing, alone_fails = {}, set()
     for t, e in stmts:
-        o, combo = meta[t]
-        got = results[t]
-        shape = "operands-" + "".join("E" if c == "e" else "F" for c in combo)
-        ck = (op, m, "unpacked", o, "two-ids" if two else "one-id", shape)
-        if isinstance(got, tuple):
-            rec.case(ck, got[1])
-            rec.violation("C05:%s:%s:unpacked/%s%s:%s" % (op, count_class(m), "some-operand-empty" if "e" in combo else "all-operands-full",
-                                                         "" if o == "equal" else "/permuted-component-order", got[1]),
-                          "DS_r <- %s; -> %s" % (R.render(e), got[2]), replay_data(e, datasets, ids, False))
+        form, o = meta[t]
+        exp, sig, bad = judge_statement(e, results[t], env, ids, slices, by_order[o])
+        if form[0] == "constituent":
+            if sig:
+                alone_fails.add((form[1], o))
             continue
-        exp, diffs = judge(e, env, ids, got)
-        rec.case(ck, diffs[0][0] if diffs else "ok", nontrivial=combo.count("f") >= 1)
-        if diffs:
-            present = operand_keys(e, env, ids)
-            kind, key, _ = diffs[0]
-            cls = classify(op, m, kind, key, present)
-            where = "unpacked/%s" % ("some-operand-empty" if "e" in combo else "all-operands-full")
-            if o != "equal":
-                where += "/permuted-component-order"
-            rec.violation("C05:%s:%s:%s/%s:%s" % (op, count_class(m), where, cls, kind),
-                          "DS_r <- %s; on %s -> %s" % (R.render(e), "; ".join(compact(d) for d in datasets if d.name in set(R.datasets_of(e))), describe(ids, diffs)),
-                          replay_data(e, datasets, ids, False))
+        failing[(form, o)] = sig
+        sub = dict(item, op=form[1])
+        record_cases(sub, "nested-%s-%s" % (form[2], inner), o, e, exp, results[t], bad, slices, rec)
+    seen = set()
+    for o in ORDERS:
+        suffix = "+permuted-component-order" if o != "equal" else ""
+        by_kind = {}
+        for (form, oo), sig in failing.items():
+            if oo != o or not sig:
+                continue
+            if (inner, o) in alone_fails or (form[1], o) in alone_fails:
+                rec.count("composite_failures_explained_by_a_constituent", len(sig))
+                continue
+            for (cls, kind), entry in sig.items():
+                by_kind.setdefault(kind, {}).setdefault(form, entry)
+        for kind in sorted(by_kind, key=kind_rank):
+            outers = sorted(set(f[1] for f in by_kind[kind]))
+            if len(outers) >= 2:
+                fkey = "C05:%s:operands=2:as-operand-of-another-set-operator%s:%s" % (inner, suffix, kind)
+                todo = [(fkey, by_kind[kind][sorted(by_kind[kind])[0]])]
+            else:
+                todo = [("C05:%s:operands=2:nested-%s-%s%s:%s" % (f[1], f[2], inner, suffix, kind), by_kind[kind][f]) for f in sorted(by_kind[kind])]
+            for fkey, entry in todo:
+                if fkey not in seen:
+                    seen.add(fkey)
+                    emit(fkey, entry, rec)
 
 
 # ---------------------------------------------------------------------------------------------------------
@@ -524,7 +574,7 @@ class Check:
             it["seed"] = seed
         items = harness.seeded_order(items, seed)
         # big items first (wall time), order is irrelevant for the verdict
-        items.sort(key=lambda it: -((2 ** it["k"]) ** it["m"]) if it["kind"] != "unpacked" else 0)
+        items.sort(key=lambda it: -((2 ** it["k"]) ** it["m"]))
         harness.pmap(work, items, rec)
         rec.violations.sort(key=lambda v: (v["key"], sum(len(d["rows"]) for d in v["replay"]["datasets"]), v["what"]))
         ops = set(k[0] for k in rec.keys)
@@ -533,7 +583,7 @@ class Check:
             rec.tool_error("operators never exercised non-trivially: %s" % missing)
         return {"exhaustive": True, "traces_validated_against_impl": len(ok), "work_items": len(items),
                 "calibration_cases_outside_subset": len(skipped),
-                "input_cases_per_shape": {"k=%d,m=%d" % (k, m): (2 ** k) ** m for k, m in sorted(set((i["k"], i["m"]) for i in items if i["kind"] != "unpacked"))}}
+                "input_cases_per_shape": {"k=%d,m=%d" % (k, m): (2 ** k) ** m for k, m in sorted(set((i["k"], i["m"]) for i in items))}}
 
     def replay(self, data):
         harness.boot()
